@@ -9,11 +9,20 @@ for d in "$@"; do
 	git -C /repo worktree add -q "$W/wt" HEAD || { echo "$d worktree failed"; continue; }
 	( cd "$W/wt" && git apply "$d" ) || { echo "$d: does not apply"; git -C /repo worktree remove --force "$W/wt"; rm -rf "$W"; continue; }
 	if ! ( cd "$W/wt" && go build ./... && go build -tags verif ./... && go test -count=1 -vet=off ./... ) >"$W/suite.log" 2>&1; then echo "$d: suite fails"; tail -5 "$W/suite.log"; fi
-	for id in $ALL; do
-		out=$(VERIF_REPO="$W/wt" VERIF_EVIDENCE_DIR="$W/ev" VERIF_REPLAY_DIR="$W/rp" timeout 3600 ./run.sh sweep quick $id 2>&1)
+	remaining="$ALL"
+	while [ -n "$remaining" ]; do
+		# one build, the remaining checks in order; a check that does not exit 0
+		# stops the sweep: it is reported and the sweep goes on after it
+		out=$(VERIF_REPO="$W/wt" VERIF_EVIDENCE_DIR="$W/ev" VERIF_REPLAY_DIR="$W/rp" timeout 7200 ./run.sh sweep quick $remaining 2>&1)
 		r=$(echo "$out" | grep -m1 '^SWEEP')
-		if [ "$r" != "SWEEP none" ]; then echo "$d $id: $r"; echo "$out" | grep -v '^SWEEP' | head -6 | cut -c1-400; fi
-		if [ -f "$W/ev/$id.json" ]; then ex=$(python3 -c "import json;print(json.load(open('$W/ev/$id.json'))['coverage'].get('exhaustive'))"); [ "$ex" = "True" ] || echo "$d $id: exhaustive=$ex"; fi
+		if [ "$r" = "SWEEP none" ]; then break; fi
+		bad=$(echo "$r" | sed -n 's/^SWEEP first=\(C[0-9][0-9]\).*/\1/p')
+		echo "$d $bad: $r"; echo "$out" | grep -v '^SWEEP' | head -6 | cut -c1-400
+		[ -n "$bad" ] || break
+		remaining=$(echo "$remaining" | sed "s/.*$bad//")
+	done
+	for id in $ALL; do
+		if [ -f "$W/ev/$id.json" ]; then ex=$(python3 -c "import json;print(json.load(open('$W/ev/$id.json'))['coverage'].get('exhaustive'))"); [ "$ex" = "True" ] || echo "$d $id: exhaustive=$ex"; else echo "$d $id: no evidence file"; fi
 	done
 	echo "$d: done"
 	git -C /repo worktree remove --force "$W/wt"; rm -rf "$W"
